@@ -26,6 +26,63 @@ def base_world(I, now_s=None, epoch=None):
     return now, ep, b
 
 
+def _pos_msg(action, **kw):
+    return {'manage_position': {'action': {action: kw}}}
+
+
+def _c08_state(m, closed_key='is_closed', with_other=True, with_weights=False):
+    from .pm import rj
+    exp = m.get('expiring_at') if m.get(closed_key) else None
+    pos = [('u-a', LP1, m['amount'], m['duration'], 'alice', exp)]
+    if with_other:
+        pos.append(('u-b', LP1, m.get('other_amount', 1), m['duration'], 'bob', None))
+    d = {'now_s': m['now_s'], 'positions': pos, 'counters': {'position': 7},
+         'mints': [('farm_manager', [(LP1, m['fm_lp_balance'])])]}
+    if with_weights:
+        d['weights'] = [('farm_manager', LP1, m['epoch'], m['total_w']), ('alice', LP1, m['epoch'], m['user_w'])]
+    return d
+
+
+def _replay_s1(m):
+    ch = m['_choices']
+    who = ['alice', 'bob', 'pool_manager'][ch['sender']]
+    em = [None, False][ch['emergency']]
+    d = _c08_state(m)
+    d['txs'] = [(who, _pos_msg('withdraw', identifier='u-a', emergency_unlock=em), [])]
+    return d
+
+
+def _replay_s2(m):
+    from .pm import coin_j
+    ch = m['_choices']
+    who = ['alice', 'bob', 'pool_manager'][ch['sender']]
+    lp = None if ch['mode'] == 0 else coin_j(LP1, m['close_amount'])
+    d = _c08_state(m, with_weights=True)
+    d['txs'] = [(who, _pos_msg('close', identifier='u-a', lp_asset=lp), [])]
+    return d
+
+
+def _replay_s3(m):
+    ch = m['_choices']
+    who = ['alice', 'pool_manager'][ch['sender']]
+    recv = [None, '@alice', '@bob'][ch['receiver']]
+    ident = [None, 'fresh', 'taken'][ch['ident']]
+    d = {'now_s': m['now_s'], 'positions': [('u-taken', LP1, 5, DAY, 'bob', None)], 'counters': {'position': 7},
+         'mints': [('farm_manager', [(LP1, m['fm_lp_balance'])]), (who, [(LP1, m['amount'])])]}
+    d['txs'] = [(who, _pos_msg('create', identifier=ident, unlocking_duration=m['duration'], receiver=recv), [(LP1, m['amount'])])]
+    return d
+
+
+def _replay_s4(m):
+    ch = m['_choices']
+    who = ['alice', 'bob', 'pool_manager'][ch['sender']]
+    denom = [LP1, LP2][ch['denom']]
+    d = _c08_state(m, with_other=False)
+    d['mints'].append((who, [(denom, m['add_amount'])]))
+    d['txs'] = [(who, _pos_msg('expand', identifier='u-a'), [(denom, m['add_amount'])])]
+    return d
+
+
 def snapshot_positions(I):
     return {p.get('identifier'): clone(p) for p in all_positions(I)}
 
@@ -38,7 +95,7 @@ def pos_eq(I, a, b):
             statement='non-emergency withdrawal: succeeds iff sender is the position owner and the position is closed with expiring_at <= now '
                       '(boundary second included); pays exactly the recorded amount to the owner, deletes the position, touches no other position',
             bounds='amount [1,2^128), block time and expiring_at full u64 seconds, sender in {owner, stranger, pool manager}; open or closed position',
-            covers=['ok', 'rejected'])
+            covers=['ok', 'rejected'], replay=fm_replay(lambda m: _replay_s1(m)))
 def s1(I):
     I.set_hint(HINT)
     now, ep, b = base_world(I)
@@ -57,6 +114,10 @@ def s1(I):
     others = snapshot_positions(I)
     st, resp = ch.execute(who, FM, manage_position('Withdraw', identifier='u-a', emergency_unlock=emergency), [])
     allowed = smt.And(who == 'alice', closed, (exp <= now) if closed else False)
+    I.observe('status', 'ok' if st == 'ok' else 'err')
+    observe_position(I, 'u-a')
+    observe_position(I, 'u-b')
+    observe_balances(I, b, [('alice', LP1), ('bob', LP1), (FM, LP1), (FC, LP1)])
     if st != 'ok':
         I.cover('rejected', HINT)
         I.check('rejected_only_when_not_allowed', smt.Not(allowed))
@@ -75,7 +136,7 @@ def s1(I):
             statement='close: only the owner, only an open position; full close sets expiring_at = now + unlocking_duration; partial close creates a new closed '
                       'position with a fresh generated id and amount_new + amount_rest = amount_old; no LP moves; positions of other users untouched',
             bounds='amounts [1,2^128), times u64, sender in {owner, stranger, pool manager}; close amount None / equal / smaller / larger',
-            covers=['full', 'partial', 'rejected'])
+            covers=['full', 'partial', 'rejected'], replay=fm_replay(lambda m: _replay_s2(m)))
 def s2(I):
     I.set_hint(HINT)
     now, ep, b = base_world(I)
@@ -101,6 +162,10 @@ def s2(I):
     pre = b.snapshot()
     others = snapshot_positions(I)
     st, resp = ch.execute(who, FM, manage_position('Close', identifier='u-a', lp_asset=arg), [])
+    I.observe('status', 'ok' if st == 'ok' else 'err')
+    for pid in ('u-a', 'u-b', 'p-8'):
+        observe_position(I, pid)
+    observe_balances(I, b, [('alice', LP1), (FM, LP1)])
     if st != 'ok':
         I.cover('rejected', HINT)
         I.outcome('rejected')
@@ -136,7 +201,7 @@ def s2(I):
             statement='create: for someone else only when the sender is the pool manager (or the receiver itself); records exactly the attached LP for the receiver, '
                       'open; explicit ids get the u- prefix, generated ids p-<counter>; an existing id is refused',
             bounds='amount [1,2^128/17), duration in config range, sender in {alice, pool manager}, receiver in {none, alice, bob}, id in {none, fresh, taken}',
-            covers=['ok', 'rejected'])
+            covers=['ok', 'rejected'], replay=fm_replay(lambda m: _replay_s3(m)))
 def s3(I):
     I.set_hint(HINT)
     now, ep, b = base_world(I)
@@ -157,6 +222,10 @@ def s3(I):
     pre = b.snapshot()
     st, resp = ch.execute(who, FM, manage_position('Create', identifier=ident, unlocking_duration=dur, receiver=recv), [coin_v(LP1, amt)])
     authorised = (who == PMA) or (recv_addr == who)
+    I.observe('status', 'ok' if st == 'ok' else 'err')
+    for pid in ('p-8', 'u-fresh', 'u-taken'):
+        observe_position(I, pid)
+    observe_balances(I, b, [(FM, LP1), (who, LP1)])
     if st != 'ok':
         I.cover('rejected', HINT)
         I.check('rejected_only_if_unauthorised_or_taken', (not authorised) or ik == 2)
@@ -176,7 +245,8 @@ def s3(I):
 
 @obligation('C08', 'S4.expand', entries=['execute', 'expand_position', 'update_weights'], kind='S',
             statement='expand: only the owner or the pool manager, only an open position, only the same LP denom; recorded amount grows by exactly the attached LP',
-            bounds='amounts [1,2^128/17), sender in {owner, stranger, pool manager}, open or closed, same/other LP denom', covers=['ok', 'rejected'])
+            bounds='amounts [1,2^128/17), sender in {owner, stranger, pool manager}, open or closed, same/other LP denom', covers=['ok', 'rejected'],
+            replay=fm_replay(lambda m: _replay_s4(m)))
 def s4(I):
     I.set_hint(HINT)
     now, ep, b = base_world(I)
@@ -192,6 +262,9 @@ def s4(I):
     pre = b.snapshot()
     st, resp = ch.execute(who, FM, manage_position('Expand', identifier='u-a'), [coin_v(denom, add)])
     allowed = (who in ('alice', PMA)) and (not closed) and denom == LP1
+    I.observe('status', 'ok' if st == 'ok' else 'err')
+    observe_position(I, 'u-a')
+    observe_balances(I, b, [(FM, LP1), (FM, LP2), (who, denom)])
     if st != 'ok':
         I.cover('rejected', HINT)
         I.check('rejected_only_when_not_allowed', not allowed)
